@@ -170,6 +170,33 @@ def rule_z1(repo):
     res.add('%s :: convert.rec :: of_nat :: nonneg' % Z3, ok,
             'the real image of a nat variable is constrained >= 0' if ok else
             'of_nat of a variable becomes an unconstrained real', '%s:%d' % (Z3, t.lineno))
+    # the one-constant-per-variable alias is only meaningful for free variables: for a variable bound
+    # by a quantifier the constant would be the same for every value of the bound variable
+    def registrations(test):
+        reg = set()
+        for n in _region(cfg, test):
+            if n.kind == 'stmt':
+                for c in ast.walk(n.ast):
+                    if isinstance(c, ast.Call) and call_attr(c) in ('add', 'append') and isinstance(c.func.value, ast.Name) and c.args:
+                        reg.add(c.func.value.id)
+        # only names registered before the body of the quantifier is translated
+        return reg
+    both = registrations(branch('is_forall', _is_method_test('is_forall'))) & registrations(branch('is_exists', _is_method_test('is_exists')))
+    alias_nodes = [n for n in region if n.kind == 'stmt' and any(
+        isinstance(x, ast.Subscript) and is_name(x.value, 'to_real') for x in ast.walk(n.ast))]
+    alias_nodes += [n for n in region if n.kind == 'stmt' and isinstance(n.ast, ast.Return) and any(
+        isinstance(x, ast.Subscript) and is_name(x.value, 'to_real') for x in ast.walk(n.ast))]
+
+    def free_only(e, pol):
+        cp = compare_parts(e)
+        return bool(cp) and cp[0] is ast.NotIn and pol and isinstance(cp[2], ast.Name) and cp[2].id in both and \
+            (path_of(cp[1]) or '').endswith('.name')
+    edges = cfg.establishing_edges(free_only)
+    ok = bool(alias_nodes) and bool(edges) and all(cfg.path_avoiding(n, skip_edges=edges, start=start) is None for n in alias_nodes)
+    res.add('%s :: convert.rec :: of_nat :: alias-only-for-free-variables' % Z3, ok,
+            'the real constant standing for of_nat v is used only when v is not bound by a quantifier' if ok else
+            'of_nat of a quantifier-bound variable is replaced by one global real constant: the premise '
+            '!n::nat. (n = 0 --> of_nat n = 0) & (n = 1 --> of_nat n = 1) becomes inconsistent and proves false', '%s:%d' % (Z3, t.lineno))
     return res
 
 
